@@ -492,9 +492,9 @@ Section SignVerify.
   Hypothesis H_sign_nonempty : forall m b, sign key m b <> "".
   Hypothesis H_parse_cert : parse_cert der = Some crt.
   Hypothesis H_digest_len : forall alg b d, digest alg b = Some d -> 20 <= String.length d.
-  (* re-parsing the canonical bytes of a detached SignedInfo yields the tree canonicalPrep / TransformExcC14n prepared *)
-  Hypothesis H_reparse_signed_info : forall cid det sa p b,
-    tag_of det = "SignedInfo" -> si_prep cid det = Ok (sa, p) -> canon sa det = Some b -> reparse b = Some p.
+  (* the parser/serialiser round trip is needed at TWO byte strings only and is a premise of the theorems at exactly those:
+     re-parsing the canonical bytes of the detached SignedInfo yields the tree canonicalPrep / TransformExcC14n prepared
+     ([reparse sib = Some p]); the canonical bytes of the message re-parse to something ([reparse bytes = Some v]) *)
 
   Lemma verify_embedded now sg :
     sg_keyinfo sg = Some [chd (base64_encode der)] -> der <> "" -> cert_valid_at crt now = true ->
@@ -519,12 +519,12 @@ Section SignVerify.
     canon (signer_alg (cx_canon cx)) el' = Some bytes -> digest (digest_id (cx_hash cx)) bytes = Some d ->
     dv = base64_encode want -> want <> "" ->
     declared_method cx = Some sm ->
-    si_detached el' sg = Ok det -> si_prep (canon_id (cx_canon cx)) det = Ok (sa, p) -> canon sa det = Some sib ->
+    si_detached el' sg = Ok det -> si_prep (canon_id (cx_canon cx)) det = Ok (sa, p) -> canon sa det = Some sib -> reparse sib = Some p ->
     sv = base64_encode (sign key sm sib) ->
     reparse bytes = Some v ->
     dsig_validate canon digest sig_ok parse_cert reparse [crt] now signed = if d =?s want then DOk v else DErr.
   Proof.
-    intros HCS HPL HSG HCin HCalg HCerts Hder Hkey Hvalid Hcan Hdig Hdv Hw0 Hsm Hdet Hprep Hsib Hsv Hrep.
+    intros HCS HPL HSG HCin HCalg HCerts Hder Hkey Hvalid Hcan Hdig Hdv Hw0 Hsm Hdet Hprep Hsib Hrsi Hsv Hrep.
     assert (Hdv0 : dv <> "") by (subst dv; apply base64_nonempty; exact Hw0).
     assert (Hsv0 : sv <> "") by (subst sv; apply base64_nonempty; apply H_sign_nonempty).
     destruct (signed_shape _ _ _ _ _ _ _ _ _ HCS HPL HSG HCerts Hder Hdv0 Hsv0 Hsm) as (sp & t & a & c0 & rest & -> & -> & ->).
@@ -567,8 +567,7 @@ Section SignVerify.
     cbn [found fs_sig sig_rec sg_signed_info sg_value].
     rewrite HCSI. cbn [bind sinfo_rec si_sig_alg]. rewrite Hsmcr, Hsmk. cbn [negb].
     rewrite Hsv, chd_base64, base64_decode_encode, H_sign_verifies. cbn [negb].
-    destruct (detach_sorted_shape _ _ _ (si_det_ok L sm cid uri hid dv HL)) as [Htag _]. fold si in Htag.
-    rewrite (H_reparse_signed_info cid (si_det L si) sa p sib Htag Hprep Hsib).
+    rewrite Hrsi.
     replace p with (snd (si_prepared cid (si_det L si))) by (rewrite Hprepd; reflexivity).
     unfold si. rewrite (unmarshal_prepared_signed_info L sm cid uri hid dv HL HCin). fold si. cbn [bind].
     unfold pick_reference. rewrite Hidr'. cbn [sinfo_rec si_refs].
@@ -596,12 +595,12 @@ Section SignVerify.
     canon (signer_alg (cx_canon cx)) el' = Some bytes -> digest (digest_id (cx_hash cx)) bytes = Some d ->
     dv = base64_encode d ->
     declared_method cx = Some sm ->
-    si_detached el' sg = Ok det -> si_prep (canon_id (cx_canon cx)) det = Ok (sa, p) -> canon sa det = Some sib ->
+    si_detached el' sg = Ok det -> si_prep (canon_id (cx_canon cx)) det = Ok (sa, p) -> canon sa det = Some sib -> reparse sib = Some p ->
     sv = base64_encode (sign key sm sib) ->
     reparse bytes = Some v ->
     dsig_validate canon digest sig_ok parse_cert reparse [crt] now signed = DOk v.
   Proof.
-    intros HCS HPL HSG HCin HCalg HCerts Hder Hkey Hvalid Hcan Hdig Hdv Hsm Hdet Hprep Hsib Hsv Hrep.
+    intros HCS HPL HSG HCin HCalg HCerts Hder Hkey Hvalid Hcan Hdig Hdv Hsm Hdet Hprep Hsib Hrsi Hsv Hrep.
     assert (Hd0 : d <> "") by (intros ->; pose proof (H_digest_len _ _ _ Hdig) as Hl; cbn in Hl; lia).
     rewrite (signed_message_outcome cx el dv sv el' sg signed now sm bytes d d det sa p sib v); auto.
     rewrite String.eqb_refl. reflexivity.
@@ -619,12 +618,12 @@ Section SignVerify.
     canon (signer_alg (cx_canon cx)) el' = Some bytes -> digest (digest_id (cx_hash cx)) bytes = Some d ->
     dv = base64_encode want -> want <> "" -> d <> want ->
     declared_method cx = Some sm ->
-    si_detached el' sg = Ok det -> si_prep (canon_id (cx_canon cx)) det = Ok (sa, p) -> canon sa det = Some sib ->
+    si_detached el' sg = Ok det -> si_prep (canon_id (cx_canon cx)) det = Ok (sa, p) -> canon sa det = Some sib -> reparse sib = Some p ->
     sv = base64_encode (sign key sm sib) ->
     reparse bytes = Some v ->
     dsig_validate canon digest sig_ok parse_cert reparse [crt] now signed = DErr.
   Proof.
-    intros HCS HPL HSG HCin HCalg HCerts Hder Hkey Hvalid Hcan Hdig Hdv Hw0 Hne Hsm Hdet Hprep Hsib Hsv Hrep.
+    intros HCS HPL HSG HCin HCalg HCerts Hder Hkey Hvalid Hcan Hdig Hdv Hw0 Hne Hsm Hdet Hprep Hsib Hrsi Hsv Hrep.
     rewrite (signed_message_outcome cx el dv sv el' sg signed now sm bytes d want det sa p sib v); auto.
     apply str_eqb_neq in Hne. rewrite Hne. reflexivity.
   Qed.
